@@ -257,7 +257,12 @@ def gen_function(r):
     n = r.randint(0, 5)
     names = r.sample(irgen.NAMES, n)
     first = r.choice(("", "", "self", "cls"))
-    pos = names[: r.randint(0, n)]
+    if n and r.random() < 0.12:
+        # a plain function whose first positional parameter merely looks like a receiver
+        names[0], first = r.choice(("self_mask", "cls_token", "selfish", "self_", "cls2")), ""
+        names = list(dict.fromkeys(names))
+        n = len(names)
+    pos = names[: r.randint(1 if (names and names[0].startswith(("self", "cls"))) else 0, n)]
     kwo = names[len(pos):]
     posonly_k = r.randint(0, len(pos)) if r.random() < 0.3 else 0
 
